@@ -366,7 +366,9 @@ def windows(full):
             yield a, b, 'env'
 
 
-def grid(tier_full, protos=('v2', 'loose')):
+def grid(level, protos=('v2', 'loose')):
+    """level 0: quick, 1: after a fingerprint drift, 2: thorough"""
+    tier_full = level >= 2
     import itertools
     cases = []
     for proto in ('v1',) + tuple(protos):
@@ -389,7 +391,7 @@ def grid(tier_full, protos=('v2', 'loose')):
                 nreq = sum(1 for c in combo if 'id' in c[0] and c[0]['method'] == 'm')
                 if n == 3 and not tier_full and (nreq < 2 or proto != 'v2'):
                     continue
-                for a, b, via in windows(tier_full and n < 3):
+                for a, b, via in windows(level >= 1 and n < 3):
                     if n == 3 and a is not None and not (a < PT < b) and not tier_full:
                         continue
                     cases.append({'proto': proto, 'max': 0, 'pt': PT, 'members': members,
@@ -447,14 +449,14 @@ def random_cases(rng, n):
 def run(ctx, res):
     c02 = _c02()
     if c02.unlisted_failure(ctx, res):
-        full = False
+        level = 0
     else:
-        full = ctx.tier == 'thorough' or c02.is_deep(ctx)
-    cases = grid(full)
+        level = 2 if ctx.tier == 'thorough' else 1 if c02.is_deep(ctx) else 0
+    cases = grid(level)
     if c02.unlisted_failure(ctx, res):
         cases = cases[::7]
     else:
-        cases += random_cases(ctx.rng, 6000 if ctx.tier == 'thorough' else 1500 if full else 150)
+        cases += random_cases(ctx.rng, (150, 600, 6000)[level])
     evaluate(ctx, cases, res)
 
 
